@@ -74,6 +74,10 @@ def gen_chart(r: random.Random, game: str, hi: int = 8, keys: int | None = None,
         lists["svs"] = gen_rows(r, slots["svs"], r.choice([0, 0, 1, 2, 3]), keys, seen, sort=srt)
         if game == "qua" and lists["svs"] and r.random() < 0.25:
             r.choice(lists["svs"])["multiplier"] = 0.0  # a Quaver "stop" SV (osu's domain excludes 0, Quaver's does not)
+        if game == "qua" and lists["svs"] and r.random() < 0.2:
+            # teleport / stutter values: their repr is exponent notation (1e-05), which YAML 1.1 reads as a string unless the
+            # writer prints a dot (1.0e-05)
+            r.choice(lists["svs"])["multiplier"] = r.choice([1e-05, 3e-07, 1e16, 2.5e-06])
     if game == "sm":
         for k in ("rolls", "mines", "lifts", "fakes", "keysounds"):
             if r.random() < 0.25:
@@ -149,7 +153,8 @@ class Gen:
         self.d = streams["data"]
         self.tier = tier
         self.queue: list[dict] = []
-        self.hi = 8 if tier == "quick" else 20
+        self.scale = int((getattr(sess, "knobs", None) or {}).get("scale", 1) or 1)
+        self.hi = (8 if tier == "quick" else 20) * self.scale
         self.setup()
 
     def setup(self):
@@ -861,6 +866,28 @@ class GenC15(Gen):
         convs = [c for c, spec in CONVERTERS.items() if spec[0] == game]
         fs += ["convert:" + c for c in convs] * (2 if convs else 0)
         analysis_ok = n_charts == 1 and game not in ("sm", "o2j") and self._dominant_unique(charts[0]["lists"])
+        tie = False
+        if n_charts == 1 and game not in ("sm", "o2j") and self.r.random() < 0.1:
+            # an EXACT tie for the longest cumulative time (whole milliseconds: the sums are exact in any order): which tempo
+            # wins is the library's business, but it may not depend on the row order
+            L = charts[0]["lists"]
+            notes = L["hits"] + L["holds"]
+            t0, d = self.d.choice([0, 1000, -500]), self.d.choice([1000, 3000, 2500 * 2])
+            A, B = self.d.sample([120.0, 180.0, 150.0, 200.0, 90.0], 2)
+            base = L["bpms"][0]
+            if self.d.random() < 0.5:
+                pts = [(t0, A), (t0 + d, B)]
+            else:
+                pts = [(t0, A), (t0 + d // 2, B), (t0 + d // 2 + d, A)]
+            L["bpms"] = [dict(base, offset=float(t), bpm=v) for t, v in pts]
+            offs = self.d.sample(range(t0, t0 + 2 * d), min(len(notes), 2 * d))
+            for n_, o in zip(notes, offs):
+                n_["offset"] = float(o)
+            notes[0]["offset"] = float(t0 + 2 * d)  # the last object: where the last tempo segment ends
+            for k in L:
+                L[k] = sorted(L[k], key=lambda x: x["offset"])
+            charts[0]["plans"] = {k: self._plan(len(v)) for k, v in L.items() if len(v) > 1}
+            analysis_ok = tie = len(notes) >= 2
         if game in ("sm", "o2j"):
             fs = [x for x in fs if x != "full_ln"]
         if analysis_ok:
@@ -876,6 +903,8 @@ class GenC15(Gen):
         if game in self.WRITE_GAMES and self.s.knobs.get("writes", True):
             fs += ["write:" + game] * 3
         f = self.r.choice(fs)
+        if tie and analysis_ok:
+            f = self.r.choice([x for x in fs if x in ("dominant_bpm", "scroll_speed", "sv_normalize")] or [f])
         op = self.mk("twin.compare", game=game, charts=charts, f=f, args={})
         if game in ("sm", "o2j"):
             op["set_meta"] = gen_set_meta(self.d, game)
@@ -1194,7 +1223,7 @@ class GenC02(FileGen):
     def gen_doc(self, game):
         from .gen_files import gen_sm_doc, gen_sm_fmt
 
-        return gen_sm_doc(self.d, 4 if self.tier == "quick" else 6), gen_sm_fmt(self.d, self.s.knobs)
+        return gen_sm_doc(self.d, (4 if self.tier == "quick" else 6) * self.scale), gen_sm_fmt(self.d, self.s.knobs)
 
 
 class GridMixin:
@@ -1239,7 +1268,7 @@ class GridMixin:
         from .gen_files import gen_timeline
 
         exact = self.d.random() < 0.65 if exact is None else exact
-        nm = self.d.randint(1, 4 if self.tier == "quick" else 6)
+        nm = self.d.randint(1, (4 if self.tier == "quick" else 6) * (1 if self.scale == 1 else min(self.scale, 10)))
         tl = gen_timeline(self.d, nm, exact, t0)
         if game == "sm":
             n = self.d.choice([1, 1, 2, 3])
@@ -1313,7 +1342,7 @@ class GenC03(GridMixin, FileGen):
     def gen_doc(self, game):
         from .gen_files import gen_sm_doc, gen_sm_fmt
 
-        return gen_sm_doc(self.d, 3), gen_sm_fmt(self.d, self.s.knobs)
+        return gen_sm_doc(self.d, 3 * self.scale), gen_sm_fmt(self.d, self.s.knobs)
 
     def p_sm_new(self):
         return self.grid_source("sm", t0=self.d.choice([0.0, 0.0, 100.0, -250.0, 1234.5]), lcm_cap=self.s.knobs.get("sm_lcm_cap"))
@@ -1350,7 +1379,7 @@ class GenC04(FileGen):
     def gen_doc(self, game):
         from .gen_files import gen_bms_doc, gen_bms_fmt
 
-        doc, layout = gen_bms_doc(self.d, 5 if self.tier == "quick" else 8, odd_tempo_subdiv=bool(self.s.knobs.get("bms_odd_tempo_subdiv")))
+        doc, layout = gen_bms_doc(self.d, (5 if self.tier == "quick" else 8) * self.scale, odd_tempo_subdiv=bool(self.s.knobs.get("bms_odd_tempo_subdiv")))
         self._layout = layout
         return doc, gen_bms_fmt(self.d, self.s.knobs)
 
@@ -1387,7 +1416,7 @@ class GenC05(GridMixin, FileGen):
     def gen_doc(self, game):
         from .gen_files import gen_bms_doc, gen_bms_fmt
 
-        doc, layout = gen_bms_doc(self.d, 4)
+        doc, layout = gen_bms_doc(self.d, 4 * self.scale)
         self._layout = layout
         return doc, gen_bms_fmt(self.d, self.s.knobs)
 
@@ -1487,7 +1516,7 @@ class GenC07(FileGen):
     def gen_doc(self, game):
         from .gen_files import gen_ojn_doc
 
-        return gen_ojn_doc(self.d, 4 if self.tier == "quick" else 6), {}
+        return gen_ojn_doc(self.d, (4 if self.tier == "quick" else 6) * self.scale), {}
 
 
 class GenC09(FileGen):
@@ -1523,13 +1552,13 @@ class GenC09(FileGen):
             doc = G.gen_qua_pipeline_doc(self.d, keys, hi, 0 if (t0_zero or not grid) else self.d.choice([0, 1000, 500]))
             fmt = G.gen_qua_fmt(self.d, self.s.knobs)
         elif sg == "sm":
-            doc = G.gen_sm_doc(self.d, 3, pipeline=dict(keys=keys_ok & self.SMK, offset0=t0_zero if grid else False))
+            doc = G.gen_sm_doc(self.d, 3 * self.scale, pipeline=dict(keys=keys_ok & self.SMK, offset0=t0_zero if grid else False))
             fmt = G.gen_sm_fmt(self.d, self.s.knobs)
         elif sg == "bms":
-            doc, layout = G.gen_bms_doc(self.d, 4, pipeline=dict(keys=keys_ok & set(range(1, 9))))
+            doc, layout = G.gen_bms_doc(self.d, 4 * self.scale, pipeline=dict(keys=keys_ok & set(range(1, 9))))
             fmt = G.gen_bms_fmt(self.d, self.s.knobs)
         else:
-            doc = G.gen_ojn_doc(self.d, 4, pipeline=dict(on=True))
+            doc = G.gen_ojn_doc(self.d, 4 * self.scale, pipeline=dict(on=True))
         if tg == "bms":
             # BMS stores shift_jis: text the target cannot hold is outside what C09 speaks of (timeline, objects, columns)
             asc = lambda: self.d.choice(ASCII_TITLES)  # noqa: E731
@@ -1585,13 +1614,33 @@ class GenC13F(GridMixin, FileGen):
     write_games = ("osu", "qua", "sm", "bms")
     read_games = ()
     table = dict(map_new=8, mapset_new=3, grid_src=8, map_edit_list=3, stack=2, stack_assign=2, stack_loc=2, rate=16,
-                 mutate_result=5, map_deepcopy=1, mapset_get_map=1, write_rated=12)
+                 mutate_result=5, map_deepcopy=1, mapset_get_map=1, write_rated=12, rate_dup_set=2)
     max_handles = 10
 
     def p_grid_src(self):
         g = self.r.choice(["sm", "sm", "bms", "osu", "qua"])
         return self.grid_source(g, t0=0.0 if g == "bms" else self.d.choice([0.0, 100.0, 1234.5]), exact=True if g == "bms" else None,
                                 lcm_cap=384)
+
+    def p_rate_dup_set(self):
+        """a set that holds the SAME chart object more than once (MapSet([m, m]), as in the library's docstrings): every
+        entry of the rated set is that chart rated once"""
+        game = self.r.choice(["base", "base", "sm"])
+        inner = self.r.choice(["base", "osu", "qua", "bms"]) if game == "base" else "sm"
+        lists, meta, keys = gen_chart(self.d, inner, self.hi)
+        m, st, res = self.new_h(), self.new_h(), self.new_h()
+        other = None
+        ops = [self.mk("map.new", game=inner, lists=lists, meta=meta, how="items", out=m, keys=keys)]
+        names = [m, m] if self.r.random() < 0.6 else [m, m, m]
+        if game == "base" and self.r.random() < 0.4:
+            l2, m2, k2 = gen_chart(self.d, inner, self.hi)
+            other = self.new_h()
+            ops.append(self.mk("map.new", game=inner, lists=l2, meta=m2, how="items", out=other, keys=k2))
+            names.insert(self.r.randrange(len(names) + 1), other)
+        ops.append(self.mk("mapset.new", game=game, maps=names, meta=gen_set_meta(self.d, game), out=st))
+        ops.append(self.mk("map.rate", h=st, r=self.r.choice([0.5, 1.25, 1.5, 2, 1.1]), out=res))
+        ops.append(self.mk("drop", hs=[st, res, m] + ([other] if other else [])))
+        return ops
 
     def p_write_rated(self):
         from .ops.files import IO
@@ -1677,19 +1726,19 @@ class GenC08F(FileGen, GenC08):
                 doc["meta"][f] = asc()
             return doc, G.gen_qua_fmt(self.d, k)
         if game == "sm":
-            doc = G.gen_sm_doc(self.d, 3)
+            doc = G.gen_sm_doc(self.d, 3 * self.scale)
             for f in ("TITLE", "ARTIST", "CREDIT"):
                 if f in doc["meta"]:
                     doc["meta"][f] = asc()
             return doc, G.gen_sm_fmt(self.d, k)
         if game == "bms":
-            doc, layout = G.gen_bms_doc(self.d, 4)
+            doc, layout = G.gen_bms_doc(self.d, 4 * self.scale)
             for h in doc["headers"]:
                 if h[0] in (b"TITLE", b"ARTIST", b"GENRE", b"PLAYLEVEL"):
                     h[1] = asc().encode("ascii") if h[0] != b"PLAYLEVEL" else h[1]
             self._layout = layout
             return doc, G.gen_bms_fmt(self.d, k)
-        return G.gen_ojn_doc(self.d, 4), {}
+        return G.gen_ojn_doc(self.d, 4 * self.scale), {}
 
     def p_install_read(self, game=None):
         game = game or self.r.choice(self.read_games)
